@@ -292,6 +292,20 @@ def main():
             f"model and implementation differ on ops {small} (dict={d}): model {core.model_eval('run_c05', [enc_case(d, small)])[0]} "
             f"impl {run_impl(conn, d, small)}; {len(dis)} disagreements; theorems of Props_C05 no longer tied to cursor.py",
             {"dict_cursor": d, "ops": small, "theorem": "Props_C05.fetch_in_order", "disagreements": len(dis)}, no_input=True)
+    # "a new execute replaces the old result set completely" - also when the TEXT is the same and only the data changed
+    c_a, c_b = conn.cursor(), conn.cursor()
+    c_b.execute("create or replace table c05_live (id int)")
+    c_b.execute("insert into c05_live values (1), (2)")
+    q_live = "select id from c05_live order by id"
+    first = c_a.execute(q_live).fetchmany(1)
+    c_b.execute("insert into c05_live values (3)")
+    second = c_a.execute(q_live).fetchall()
+    c_b.execute("delete from c05_live where id < 3")
+    third = (c_a.execute(q_live).fetchone(), c_a.fetchone(), c_a.rowcount)
+    ck.cov["evaluations"] += 3
+    if first != [(1,)] or second != [(1,), (2,), (3,)] or third != ((3,), None, 1):
+        ck.violation(f"the same statement text re-executed on one cursor while another cursor changes the data: {first} / {second} / {third}; expected [(1,)] / [(1,), (2,), (3,)] / ((3,), None, 1)",
+                     {"statements": [q_live, "(other cursor) insert into c05_live values (3)", q_live, "(other cursor) delete from c05_live where id < 3", q_live], "observed": [first, second, list(third)]})
     ck.cov["samples"] += [{"dict_cursor": cases[j][0], "ops": cases[j][1], "observed": obs[j]} for j in (0, n_exh // 2, len(cases) - 1)]
     return ck.finish(rule="exhaustive short fetch sequences + random shapes/sequences (tuple and dict cursors, repeated/quoted names, "
                           "six value types, NULLs, re-execute, fetch-before-execute); non-trivial = result of >=2 rows and >=2 fetch calls; distinct by encoded case")
